@@ -12,7 +12,6 @@ PATTERNS = [
     ('index', re.compile(r'(?<![&=,(\s#!])\[(?![\s]*\])[^\]\n]*\]')),
     ('vecpos', re.compile(r'\.(insert|remove|swap_remove|split_at|split_off|drain|truncate|copy_from_slice|chunks)\(')),
     ('arith', re.compile(r'(\)|\b\w+)\s(\+|-|\*|/|%)\s(\(|\w+)|^\s*(\+|-|\*|/|%)\s|\+=|-=|\*=|<<=|>>=|\.pow\(')),
-    ('cast', re.compile(r'\bas (u8|u16|u32|usize|i8|i16|i32|isize)\b')),
     ('unsafe', re.compile(r'\bunsafe\b')),
 ]
 NOT_ARITH = re.compile(r'(From<|AsRef<|\?Sized|\bimpl\b|\bdyn\b|\bwhere\b|^\s*(\w+|<[^>]*>)\s*:(?!:)|Iterator|Into<|TryFrom<|SmartStringMode|\bfn\b.*->)')
